@@ -167,6 +167,52 @@ def run(res):
         if m != impl:
             res.disagree("regenerated model vs implementation: get_unix_time_rational", [k, n, dd], m, impl)
     res.sample({"get_unix_time": list(cal[5]), "result": model[5]})
+    # ---- the conversions are functions of their arguments: chains of calls in which consecutive calls differ
+    #      in exactly one argument (same index and numerator under another denominator, ...), each compared
+    #      with the big-integer oracle; the result must not depend on the calls made before
+    nchain = 150 if res.tier == "quick" else 4000
+    for _ in range(nchain):
+        n = rng.choice([1, 200, 10 ** 6, 48000, rng.randrange(1, 2 ** 32)])
+        dd = rng.choice([1, 3, 7, rng.randrange(1, 10 ** 9 + 1)])
+        t = rng.randrange(0, Y9999 // 4)
+        k = t * n // dd + rng.randrange(0, max(1, n // dd))
+        if not (k < 2 ** 63 and k * dd // n < Y9999):
+            continue
+        chain = [(k, n, dd)]
+        for _s in range(6):
+            k1, n1, d1 = chain[-1]
+            which = rng.choice("knd")
+            if which == "k":
+                k1 = max(0, k1 + rng.choice([-1, 1, n1, 12345]))
+            elif which == "n":
+                n1 = rng.choice([n1 + 1, max(1, n1 - 1), n1 * 2, rng.randrange(1, 2 ** 32)])
+            else:
+                d1 = rng.choice([d1 + 1, max(1, d1 - 1), d1 * 3, rng.randrange(1, 10 ** 9 + 1)])
+            if n1 < 2 ** 32 and d1 <= 10 ** 9 and k1 < 2 ** 63 and k1 * d1 // n1 < Y9999:
+                chain.append((k1, n1, d1))
+        chain.append(chain[0])
+        for j, (k1, n1, d1) in enumerate(chain):
+            sec, ps = k1 * d1 // n1, ((k1 * d1) % n1) * PS // n1
+            spec = [0] + civil(sec) + [ps]
+            try:
+                dt, ips = digital_rf.get_unix_time(k1, n1, d1)
+                impl = [0, dt.year, dt.month, dt.day, dt.hour, dt.minute, dt.second, ips]
+            except Exception as e:  # noqa
+                impl = ["exc", repr(e)]
+            rc = lib.digital_rf_get_timestamp_floor(k1, n1, d1, ctypes.byref(s_out), ctypes.byref(p_out))
+            res.case(("chain", k1, n1, d1, j))
+            res.count("chained-calls")
+            if impl != spec:
+                res.violation("unix-time-depends-on-earlier-calls" if j else "unix-time",
+                              "get_unix_time differs from calendar of floor(k*d/n) / floor picoseconds after a sequence of calls",
+                              {"fn": "unix", "k": k1, "n": n1, "d": d1, "history": [list(c) for c in chain[:j]]}, spec, impl)
+                break
+            if [rc, s_out.value, p_out.value] != [0, sec, ps]:
+                res.violation("floor-depends-on-earlier-calls" if j else "floor-not-exact",
+                              "get_timestamp_floor differs from floor(k*d/n) after a sequence of calls",
+                              {"fn": "floor", "k": k1, "n": n1, "d": d1, "history": [list(c) for c in chain[:j]]},
+                              [0, sec, ps], [rc, s_out.value, p_out.value])
+                break
     # ---- guard the extraction: a sample evaluated by vm_compute inside Coq
     sub = [cases[i] for i in range(0, len(cases), max(1, len(cases) // 150))][:150]
     exprs = ["(let '(rc, s, p) := digital_rf_get_timestamp_floor (%d) (%d) (%d) in [rc; s; p])" % c for c in sub]
@@ -185,6 +231,17 @@ def run(res):
 
 def replay(res, rp):
     common.use_impl()
+    import digital_rf
     i = rp["input"]
     print("replay", i, "expected", rp.get("expected"), "observed-then", rp.get("observed"))
+    if isinstance(i, dict) and i.get("fn") == "unix":
+        for (k, n, dd) in i.get("history") or []:
+            digital_rf.get_unix_time(k, n, dd)
+        k, n, dd = i["k"], i["n"], i["d"]
+        dt, ips = digital_rf.get_unix_time(k, n, dd)
+        got = [0, dt.year, dt.month, dt.day, dt.hour, dt.minute, dt.second, ips]
+        want = [0] + civil(k * dd // n) + [((k * dd) % n) * PS // n]
+        print("get_unix_time(%d, %d, %d) after %d earlier calls -> %s; exact value %s" % (k, n, dd, len(i.get("history") or []), got, want))
+        print("replay verdict:", "STILL VIOLATING" if got != want else "no longer violating")
+        return 1 if got != want else 0
     return 0
